@@ -24,6 +24,7 @@ enum ReaderWriterError {
 #[derive(Clone)]
 pub(crate) struct FailingReaderWriter {
     message: &'static str,
+    discard_writes: bool,
 }
 
 impl FailingReaderWriter {
@@ -33,7 +34,24 @@ impl FailingReaderWriter {
     ///
     /// * `message` - The error message to use for all operations.
     pub const fn new(message: &'static str) -> Self {
-        Self { message }
+        Self {
+            message,
+            discard_writes: false,
+        }
+    }
+
+    /// Creates a new `FailingReaderWriter` whose reads fail with the given error message but
+    /// whose writes are silently discarded (what happens to diagnostics when standard error
+    /// has been closed).
+    ///
+    /// # Arguments
+    ///
+    /// * `message` - The error message to use for read operations.
+    pub const fn new_discarding_writes(message: &'static str) -> Self {
+        Self {
+            message,
+            discard_writes: true,
+        }
     }
 }
 
@@ -60,13 +78,21 @@ impl std::io::Read for FailingReaderWriter {
 }
 
 impl std::io::Write for FailingReaderWriter {
-    fn write(&mut self, _buf: &[u8]) -> std::io::Result<usize> {
+    fn write(&mut self, buf: &[u8]) -> std::io::Result<usize> {
+        if self.discard_writes {
+            return Ok(buf.len());
+        }
+
         Err(std::io::Error::other(ReaderWriterError::Write(
             self.message,
         )))
     }
 
     fn flush(&mut self) -> std::io::Result<()> {
+        if self.discard_writes {
+            return Ok(());
+        }
+
         Err(std::io::Error::other(ReaderWriterError::Flush(
             self.message,
         )))
